@@ -5,9 +5,9 @@
 package c13
 
 import (
-	"regexp"
 	"encoding/json"
 	"fmt"
+	"regexp"
 	"strings"
 	"testing"
 
